@@ -90,7 +90,9 @@ func (r *CheckRun) tryReplay(a *AggObl, replayPath string) bool {
 // parameter values are the failing input, the oracle is "the call panics".
 func (r *CheckRun) modelReplay(a *AggObl, values map[string]string) *ReplaySpec {
 	o := a.failing
-	if o == nil || o.Kind != "safety" || a.failVC == nil || a.failVC.fn == nil {
+	// safety obligations (oracle: the call panics) and erroronly obligations (oracle: the call returns an error)
+	errOnly := o != nil && o.Clause != nil && o.Clause.Kind == "erroronly"
+	if o == nil || (o.Kind != "safety" && !errOnly) || a.failVC == nil || a.failVC.fn == nil {
 		return nil
 	}
 	fn := a.failVC.fn
@@ -136,6 +138,26 @@ func (r *CheckRun) modelReplay(a *AggObl, values map[string]string) *ReplaySpec 
 		args = append(args, val)
 	}
 	call := fn.Name() + "(" + strings.Join(args, ", ") + ")"
+	if errOnly {
+		nres := fn.Signature.Results().Len()
+		if nres == 0 || !isErrorType(fn.Signature.Results().At(nres-1).Type()) {
+			return nil
+		}
+		lhs := strings.Repeat("_, ", nres-1) + "err"
+		src := fmt.Sprintf(`package %s
+
+import "testing"
+
+// generated by gocv from the solver's counterexample of %s (%s)
+func TestGocvReplayModel(t *testing.T) {
+	%s := %s
+	if err != nil {
+		t.Fatalf("%s is refused: %%v", err)
+	}
+}
+`, fn.Pkg.Pkg.Name(), shortKey(a.Func), o.Detail, lhs, call, strings.ReplaceAll(call, `"`, `'`))
+		return &ReplaySpec{PkgPath: fn.Pkg.Pkg.Path(), TestName: "TestGocvReplayModel", Source: src, What: call + " returns an error"}
+	}
 	src := fmt.Sprintf(`package %s
 
 import "testing"
